@@ -192,6 +192,16 @@ def analyse_solve(proj):
             break
     else:
         res.ok("DRV-CALLER-PURE", "self.Qn := f.copy() before the loop on all %d prologue paths" % len(heads))
+    # objects the caller passes as pure inputs (stop criteria, directives, save times) are not changed
+    pm = {}
+    for st in list(heads) + list(others):
+        for ev in st.events:
+            if ev[0] == "param-mutated":
+                pm[(ev[1], ev[2], ev[3])] = ev
+    for (pname, meth, ln) in sorted(pm):
+        res.bad("DRV-CALLER-PURE", "the caller's `%s` argument is changed in place (%s, line %d): a later solve/restart with the same object inherits this call's value (a default stop time written into the caller's dictionary ends the next run early)" % (pname, meth, ln), ln, "param-" + pname)
+    if not pm:
+        res.ok("DRV-CALLER-PURE", "stop criteria, directives and save times are only read")
     for h in heads:
         if not _lin_eq(h.attrs.get("_time"), h.attrs["Qn"].time if isinstance(h.attrs.get("Qn"), FieldObj) else None, h.cons):
             res.bad("DRV-COUNT", "self._time != Qn.time at the loop head", fsolve.node.lineno, "time-head")
